@@ -143,6 +143,7 @@ class Machine(object):
         if sched.stats["pt_c"]:
             ctx.probe("c_level_preemption_points", sched.stats["pt_c"])
         ctx.state((nt, min(sched.switches, 20) // 4, bool(sched.stats["lock_contended"]), bool(sched.stats["sw_c"])))
+        ctx.state("sched:" + sched.digest())
         if not ok:
             ctx.violate("threads/deadlock", "all live simulated threads are blocked on locks created by the library",
                         observed="blocked: %s" % sorted(sched.blocked), expected="progress")
@@ -539,6 +540,11 @@ class Machine(object):
                     c = copy.deepcopy(case)
                     del c["programs"][i][j]
                     yield c
+
+    def extra_coverage(self, tot):
+        traces = sum(1 for x in tot["states"] if isinstance(x, str) and x.startswith("sched:"))
+        return {"distinct_schedule_traces": traces, "states": len(tot["states"]) - traces,
+                "interleaving_measure": "distinct SHA-256 digests of the full decision trace (who yielded at which kind of point to whom)"}
 
     def describe(self):
         return {
